@@ -973,7 +973,10 @@ pub fn run(case: &str, st: &mut Stats) -> Outcome {
             st.bump("semantic_topdown_compilations");
         }
     }
-    line.push_str(&format!(" sem={sem} semn={semn}"));
+    // semn (stored nodes / get_or_insert requests of the semantic builder) depends on the shape of
+    // its uncompressed diagrams, which no property fixes: reported in the statistics, not compared
+    let _ = &semn;
+    line.push_str(&format!(" sem={sem} semn=*"));
 
     // ---- SDD half of the correspondence: the case's explicit vtrees, one builder per prime
     {
